@@ -413,6 +413,96 @@ def check_path_api(ctx, paths, kind, fortran, via_views, retrace=None):
     return out
 
 
+def check_index_dtypes(ctx):
+    """(unsigned index types are refused by `Rays.__init__` by design — `-1` marks "no ray" — and are not tried)
+    rays_indices_layout for every index dtype the solver accepts and ray counts around the dtype limits: indices[0,i,j] = i,
+    indices[-1,i,j] = j, interior rows realise the times — also when there are more rays than the index type can count
+    (each *point set* still fits: the type only has to hold point numbers)"""
+    import arim
+    import arim.geometry as g
+    from arim import ray
+
+    rng = ctx.rng
+    block = arim.Material(6300.0, 3100.0, density=2700.0, state_of_matter="solid")
+    for dtype_idx, (n, p) in [(np.int16, (182, 181)), (np.int16, (40, 30)), (np.int32, (200, 170)), (np.int64, (50, 60)), (np.int8, (12, 11))]:
+        for nmid in (None, 3):
+            A = g.Points(np.c_[np.linspace(-0.02, 0.02, n), np.zeros(n), np.zeros(n)], "A")
+            B = g.Points(np.c_[rng.uniform(-0.02, 0.02, p), np.zeros(p), rng.uniform(0.01, 0.03, p)], "B")
+            sets = [A, B] if nmid is None else [A, g.Points(np.c_[rng.uniform(-0.01, 0.01, nmid), np.zeros(nmid), np.full(nmid, 0.005)], "M"), B]
+            fp = ray.FermatPath(tuple(x for k, s_ in enumerate(sets) for x in ((s_,) if k == 0 else (block.longitudinal_vel if k % 2 else block.transverse_vel, s_))))
+            cj = {"op": "index_dtype", "dtype_indices": np.dtype(dtype_idx).name, "n": n, "p": p, "interior_points": nmid}
+            ctx.case(("idxdtype", np.dtype(dtype_idx).name, n, p, nmid), True)
+            ctx.count("index_dtype:" + np.dtype(dtype_idx).name)
+            try:
+                rays = ray.FermatSolver((fp,), dtype_indices=dtype_idx).solve()[fp]
+            except Exception as e:
+                ctx.violate(f"FermatSolver(dtype_indices={np.dtype(dtype_idx).name}) raised {type(e).__name__}: {str(e)[:80]} ({n} x {p} rays, every point set fits the type)", cj, {"kind": "index_dtype"})
+                continue
+            ix = np.asarray(rays.indices).astype(np.int64)
+            ii, jj = np.meshgrid(np.arange(n), np.arange(p), indexing="ij")
+            if ix.shape != (len(sets), n, p) or not np.array_equal(ix[0], ii) or not np.array_equal(ix[-1], jj):
+                bad = int((ix[0] != ii).sum() + (ix[-1] != jj).sum()) if ix.shape == (len(sets), n, p) else -1
+                ctx.violate(f"indices[0, i, j] != i or indices[-1, i, j] != j for {bad} rays with dtype_indices={np.dtype(dtype_idx).name} and {n} x {p} = {n * p} rays", cj, {"kind": "index_layout"})
+                continue
+            # the reported points realise the reported time (and it is the minimum over the interior set)
+            pts = [s_.coords for s_ in sets]
+            vs = [block.longitudinal_vel, block.transverse_vel][: len(sets) - 1]
+            tot = np.zeros((n, p))
+            for k in range(len(sets) - 1):
+                a_, b_ = pts[k][ix[k]], pts[k + 1][ix[k + 1]]
+                tot += np.sqrt(((a_ - b_) ** 2).sum(axis=-1)) / vs[k]
+            if not np.allclose(tot, rays.times, rtol=1e-12, atol=0):
+                ctx.violate(f"the reported points do not realise the reported times (dtype_indices={np.dtype(dtype_idx).name}, {n * p} rays)", cj, {"kind": "index_layout"})
+            if nmid is not None:
+                best = np.min([np.sqrt(((pts[0][:, None] - pts[1][m_][None, None]) ** 2).sum(-1)) / vs[0] + np.sqrt(((pts[1][m_][None, None] - pts[2][None, :]) ** 2).sum(-1)) / vs[1]
+                               for m_ in range(nmid)], axis=0)
+                if not np.allclose(best, rays.times, rtol=1e-12, atol=0):
+                    ctx.violate(f"times are not the minimum over the interior points (dtype_indices={np.dtype(dtype_idx).name})", cj, {"kind": "index_dtype"})
+
+
+def check_coordinate_dtypes(ctx):
+    """the point sets may hold their coordinates in any real dtype (whole millimetres as integers, float32 from a file,
+    mixed): the result is that of the same positions given as float64"""
+    import arim.geometry as g
+    from arim import ray
+
+    rng = ctx.rng
+    for it in range(12 * ctx.scale):
+        nsets = int(rng.integers(2, 5))
+        sizes = [int(rng.integers(1, 6)) for _ in range(nsets)]
+        ints = [rng.integers(-40, 41, size=(n, 3)) for n in sizes]
+        for a in ints:
+            a[:, 1] = 0
+        kinds = [[np.int64, np.int32, np.int16, np.float32, np.float64][int(rng.integers(0, 5))] for _ in range(nsets)]
+        if it % 3 == 0:
+            kinds = [np.int64] * nsets
+        vs = [float(rng.uniform(1000, 6000)) for _ in range(nsets - 1)]
+        for wdt in (np.float64, np.float32):
+            res = {}
+            for tag in ("typed", "float64"):
+                sets = [g.Points(np.asarray(a, dtype=(k if tag == "typed" else np.float64)), f"S{i}") for i, (a, k) in enumerate(zip(ints, kinds))]
+                fp = ray.FermatPath(tuple(x for k, s_ in enumerate(sets) for x in ((s_,) if k == 0 else (vs[k - 1], s_))))
+                try:
+                    res[tag] = ray.FermatSolver((fp,), dtype=wdt).solve()[fp]
+                except Exception as e:
+                    res[tag] = e
+            cj = {"op": "coordinate_dtypes", "coords": [a.tolist() for a in ints], "dtypes": [np.dtype(k).name for k in kinds], "velocities": vs, "working": np.dtype(wdt).name}
+            ctx.case(("coorddtype", it, np.dtype(wdt).name), True)
+            ctx.count("coords:" + "/".join(sorted({np.dtype(k).kind for k in kinds})))
+            a_, b_ = res["typed"], res["float64"]
+            if isinstance(b_, Exception):
+                continue
+            if isinstance(a_, Exception):
+                ctx.violate(f"ray tracing raised {type(a_).__name__} for coordinates held as {[np.dtype(k).name for k in kinds]}", cj, {"kind": "coordinate_dtype"})
+                continue
+            # float32 coordinates are exactly these small integers, so every dtype denotes the same positions
+            tol = 0 if wdt is np.float64 else 4e-7
+            if not np.allclose(a_.times, b_.times, rtol=tol, atol=0):
+                worst = float(np.max(np.abs(a_.times - b_.times) / np.abs(b_.times)))
+                ctx.violate(f"travel times differ (relative {worst:.2e}) when the same positions are held as {[np.dtype(k).name for k in kinds]} instead of float64 "
+                            f"(working precision {np.dtype(wdt).name})", cj, {"kind": "coordinate_dtype"})
+
+
 def emit(ctx, outs, case_json, tags=None):
     for kind, what in outs:
         if kind == "violate":
@@ -499,6 +589,8 @@ def run(ctx):
         ctx.count("path_api_retrace:" + how)
         emit(ctx, check_path_api(ctx, paths, kind, not fortran, via_views, retrace=how),
              {"op": "path_api_retrace", "kind": kind, "how": how, "fortran": not fortran, "via_views": via_views, "stream_index": k})
+    check_index_dtypes(ctx)
+    check_coordinate_dtypes(ctx)
     ctx.assumptions += [
         "IEEE-754: non-NaN doubles are linearly ordered and x -> fl(x + c) is monotone (transfers solve_optimal to doubles)",
         "velocities finite and positive, coordinates finite (no overflow to inf)",
